@@ -7,7 +7,7 @@ kjob = _c01.kjob; ksjob = _c01.ksjob
 META = dict(
     bounds='qrwlock and rwlock: 2-3 lockers with fixed or symbolic read/write mode, timeout never / finite, each holder yields once inside; cooperative scheduling with symbolic timeout events, <= 6-8 execution slices; '
            'a waiter without deadline that is never admitted shows up as a deadlock (lost wake-up) at the end of the run',
-    outside='pre-emption inside the primitives (multi-vCPU interleaving of atomic steps), interrupts, try_lock, more threads / acquisitions',
+    outside='rwlock (the mutex+cv based one): its harness exists (USE_RWLOCK) but the 2-locker formula exhausts the SAT solver memory, so only qrwlock is decided; pre-emption inside the primitives (multi-vCPU interleaving of atomic steps), interrupts, try_lock, more threads / acquisitions',
     assumptions=['kernel contract K (rt/kcontract.h)', 'await-as-assume for spin iterations'],
 )
 SRC = 'C06/h_rw.cpp'
@@ -22,9 +22,9 @@ def jobs(tier):
     mk('qrw_W_R', 2, 6, [W, R], timeout=900, mem_gb=16)
     mk('qrw_R_W', 2, 6, [R, W], timeout=900, mem_gb=16)
     mk('qrw_sym2', 2, 6, [S, S], timeout=1200, mem_gb=20)
-    mk('qrw_W_R_Wt_R', 4, 10, [W, R, W, R], timeout=1500, mem_gb=12)
-    mk('rw_W_R', 2, 6, [W, R], extra=['USE_RWLOCK'], timeout=1500, mem_gb=24)
+    if not q: mk('qrw_W_R_Wt_R', 4, 10, [W, R, W, R], timeout=4000, mem_gb=12)
     if not q:
         mk('qrw_sym3', 3, 8, [S, S, S], timeout=6000, mem_gb=44)
-        mk('rw_sym2', 2, 7, [S, S], extra=['USE_RWLOCK'], timeout=6000, mem_gb=40)
+    # rwlock (USE_RWLOCK, on kernel contract K with the real mutex+cv inlined): 2 lockers x 6 slices = 40M variables / 182M clauses, SAT out of memory
+    # -> not registered; see DESIGN 7.5.  if os.environ.get('VERIF_EXPERIMENTAL'): mk('rw_W_R', 2, 6, [W, R], extra=['USE_RWLOCK'], timeout=1500, mem_gb=24)
     return J
